@@ -134,7 +134,8 @@ def unit_concrete(ctx):
         for g in GROUPS:
             for m in METRICS:
                 e.assume(z3.Not(isnone[(g, m)](z3.IntVal(0))), why="statement: at least one finite recorded value per group and metric")
-        return [st], {}, {"isnone": isnone, "val": val}
+        vd = st.attrs["_Panoptica_Statistic__value_dict"]
+        return [st], {}, {"isnone": isnone, "val": val, "vd": vd, "snap": {(g, m): list(vd[g][m]) for g in GROUPS for m in METRICS}, "names": list(st.attrs["_Panoptica_Statistic__subj_names"]), "st": st}
 
     def target(st):
         one = eng.call(eng.getattr(st, "get_one_subject"), ["s1"], {})
@@ -153,6 +154,13 @@ def unit_concrete(ctx):
             continue
         one, ac, per, allv = p.value
         isn, va = p.state["isnone"], p.state["val"]
+        # frame: queries are read-only -- every stored column is the same list with the same cells in the same order afterwards
+        vd, snap = p.state["vd"], p.state["snap"]
+        cur_vd = p.state["st"].attrs.get("_Panoptica_Statistic__value_dict")
+        same = cur_vd is vd and all(isinstance(vd[g][m], list) and len(vd[g][m]) == len(snap[(g, m)]) and all(a is b for a, b in zip(vd[g][m], snap[(g, m)])) for g in GROUPS for m in METRICS) \
+            and list(p.state["st"].attrs.get("_Panoptica_Statistic__subj_names")) == p.state["names"]
+        ctx.oblige(f"{nm}/frame(get_one_subject, summaries and get_across_groups leave the stored table unchanged)#p{pi}", [], z3.BoolVal(bool(same)),
+                   func=PS + "Panoptica_Statistic.get_across_groups", replay="c20.frame", info={"structural": True})
         # per-subject lookup: subject s1 is index 1 in every column
         gs = []
         for g in GROUPS:
@@ -231,4 +239,6 @@ def build(ctx):
 
 
 def concretise(ctx, o, r):
+    if o.replay == "c20.frame":
+        return {}
     return {"obligation": o.name}
